@@ -658,7 +658,7 @@ fn create_ask(cx: &Ctx, id: &str, base: &str, quote: &str, price: &str, size: u1
     e.attrs = vec![
         ("action".into(), AttrExp::Exact("create_ask".into())),
         ("id".into(), AttrExp::Exact(id.to_string())),
-        ("price".into(), AttrExp::Exact(price.to_string())),
+        ("price".into(), AttrExp::Numeric(price.to_string())),
         ("size".into(), AttrExp::Exact(size.to_string())),
     ];
     e.tags.push(if class == AskClass::Plain { "plain" } else { "convertible" });
@@ -794,7 +794,7 @@ fn create_bid(
     e.attrs = vec![
         ("action".into(), AttrExp::Exact("create_bid".into())),
         ("id".into(), AttrExp::Exact(id.to_string())),
-        ("price".into(), AttrExp::Exact(price.to_string())),
+        ("price".into(), AttrExp::Numeric(price.to_string())),
         ("size".into(), AttrExp::Exact(size.to_string())),
     ];
     e.bid_fee = f;
@@ -830,6 +830,10 @@ fn approve_ask(cx: &Ctx, id: &str, base: &str, size: u128) -> Expect {
         Some(a) => a,
         None => return refuse("no_such_ask"),
     };
+    if ask.base == cfg.base_denom {
+        // an ask in the contract's own base denomination is a plain ask whatever was recorded
+        return refuse("plain_ask");
+    }
     match ask.class {
         AskClass::Plain => return refuse("plain_ask"),
         AskClass::Ready { .. } => return refuse("already_approved"),
@@ -863,7 +867,7 @@ fn approve_ask(cx: &Ctx, id: &str, base: &str, size: u128) -> Expect {
     e.attrs = vec![
         ("action".into(), AttrExp::Exact("approve_ask".into())),
         ("id".into(), AttrExp::Exact(id.to_string())),
-        ("price".into(), AttrExp::Exact(ask.price.clone())),
+        ("price".into(), AttrExp::Numeric(ask.price.clone())),
         ("size".into(), AttrExp::Exact(ask.size.to_string())),
     ];
     e.asks.push((id.to_string(), Some(a2)));
@@ -1207,7 +1211,9 @@ fn execute_match(cx: &Ctx, ask_id: &str, bid_id: &str, price: &str, size: u128) 
         },
     };
     if af > g {
-        return dont("ask_fee_exceeds_proceeds");
+        // the configured fee cannot be taken from these proceeds: a refusal is fine ("fees
+        // payable"), but no settlement of the match can satisfy C09 / C02
+        return refuse("ask_fee_unpayable");
     }
     // bid fee alternatives: (bf, of) with of >= bf
     let mut fee_alts: Vec<(u128, u128)> = vec![];
